@@ -135,13 +135,20 @@ def stopcmds(job, rng, home):
     if r < 0.5:
         sp = rng.randint(w.icp, w.fcp)
         plan["cmds"] = [(it, "stop", {"mode": None, "cycle_point": str(sp)})]
+        if rng.random() < 0.5:
+            # a reload straight after (or a little after) the stop request
+            plan["cmds"].append((it + rng.choice([0, 0, 1, 3]), "reload_workflow", {}))
     elif r < 0.7:
         kind = "task"
         plan["cmds"] = [(it, "stop", {"mode": None, "task": _ids_for_cmds(w, rng, 1)[0]})]
     else:
         kind = rng.choice(["REQUEST_CLEAN", "REQUEST_NOW"])
         plan["stop"] = {"iter": it, "mode": kind, "restart": rng.random() < 0.5, "sync": False}
-    res = driver.execute(w.flow_text(), outcome, eseed, os.path.join(home, "main"), plan=plan)
+    run_opts = {}
+    if kind == "point" and rng.random() < 0.5:
+        # started with --stopcp, changed at run time
+        run_opts["stopcp"] = str(rng.randint(w.icp, w.fcp))
+    res = driver.execute(w.flow_text(), outcome, eseed, os.path.join(home, "main"), plan=plan, run_opts=run_opts)
     return _pack(job["seed"], w, res, {"allcomplete": kind == "point", "stopreq": kind != "point", "stopkind": kind,
                                        "stopmid": kind == "point"},
                  {"plan": plan})
@@ -181,9 +188,22 @@ def cmds(job, rng, home):
     import os, random
     w = gen.generate(rng, features=job.get("features"))
     oseed, eseed = rng.randrange(1 << 30), rng.randrange(1 << 30)
-    twin, n_events, n_iters = _twin(w, oseed, eseed, home, "complete")
-    outcome = gen.make_outcome(w, random.Random(oseed), "complete")
+    mode = job.get("mode", "complete")
+    twin, n_events, n_iters = _twin(w, oseed, eseed, home, mode)
+    outcome = gen.make_outcome(w, random.Random(oseed), mode)
     known = sorted(twin["launched"])
+    def family_ids(head=None, p_child=0.8):
+        """an instance together with (some of) its graph children"""
+        n, p = head or (rng.choice(known) if known else (rng.choice(w.tasks), w.icp))
+        out = {f"{p}/{n}"}
+        for l in w.lines:
+            for a in gen.atoms_of(l["lhs"]):
+                if a["t"] == n and not a["abs"] and rng.random() < p_child:
+                    out.add(f"{p - a['off']}/{l['rhs']}")
+        return sorted(out)
+    # instances the reference run left unfinished although they produced outputs (failed, retained in the pool)
+    unfinished = sorted({(n, p) for n, p, o in twin["done"] if o in ("failed", "submit-failed")}
+                        - {(n, p) for n, p, o in twin["done"] if o == "succeeded"})
     def some_ids(k):
         out = []
         for _ in range(k):
@@ -209,6 +229,21 @@ def cmds(job, rng, home):
                 if not all(w.custom.get(i.split("/")[1]) for i in ids):
                     outs = None
             cl.append((it, "set", {"tasks": ids, "flow": rng.choice([[], [], ["new"]]), "outputs": outs}))
+        elif k == "group_trigger":
+            cl.append((rng.randint(max(1, n_iters // 2), n_iters + 2), "force_trigger_tasks",
+                       {"tasks": family_ids(), "flow": rng.choice([[], [], [], ["new"]])}))
+        elif k == "retrigger_failed":
+            # re-run a failed instance together with the tasks downstream of it, once things have gone quiet
+            head = rng.choice(unfinished) if unfinished else None
+            cl.append((max(1, n_iters - rng.randint(0, 3)), "force_trigger_tasks",
+                       {"tasks": family_ids(head, 1.0), "flow": []}))
+        elif k == "retrig_remove":
+            # run a finished instance again in a new flow, then remove it (from all flows, or one of them)
+            i1 = rng.randint(max(1, n_iters // 2), n_iters + 2)
+            tid_ = some_ids(1)
+            cl.append((i1, "force_trigger_tasks", {"tasks": tid_, "flow": ["new"]}))
+            cl.append((i1 + rng.choice([0, 1, 2, 4]), "remove_tasks",
+                       {"tasks": tid_, "flow": rng.choice([[], [], ["1"], ["2"]])}))
         elif k == "remove":
             cl.append((it, "remove_tasks", {"tasks": some_ids(rng.randint(1, 2)), "flow": rng.choice([[], [], ["1"]])}))
         elif k == "reload_edit" and len(w.tasks) > 2:
@@ -258,3 +293,15 @@ def xtrig(job, rng, home):
     return _pack(job["seed"], w, res, {"allcomplete": False, "stopreq": True})
 
 SCENARIOS["xtrig"] = xtrig
+
+
+def expire(job, rng, home):
+    """Datetime cycling with clock-expire tasks; the virtual clock advances two hours per main-loop iteration."""
+    w = gen.generate(rng, features=dict(job.get("features") or {}, expire=True, future=False, max_fcp=4))
+    outcome = gen.make_outcome(w, rng, "complete")
+    pol = dict(tick=rng.choice([3600.0, 7200.0, 14400.0]), max_iters=300)
+    pol.update(job.get("policy") or {})
+    res = driver.execute(w.flow_text(), outcome, rng.randrange(1 << 30), home, policy=pol, point_index=w.point_index())
+    return _pack(job["seed"], w, res, {"allcomplete": False, "stopreq": True})
+
+SCENARIOS["expire"] = expire
